@@ -32,11 +32,17 @@ pub struct Case {
     pub impl_src: Option<String>,
     /// the line of the source on which the program's (and every module's) first statement sits
     pub first_line: usize,
+    /// modules only the implementation is given (metamorphic cases that move the program into a module)
+    pub impl_modules: BTreeMap<String, String>,
+    /// feed the program to the interpreter one top-level statement at a time (each a run of its own on the
+    /// same interpreter, as a REPL would); the printed lines up to and including the first run that fails,
+    /// and that run's outcome, are the program's
+    pub piecewise: bool,
 }
 
 impl Case {
     pub fn new(family: &'static str, prog: Vec<Stmt>) -> Case {
-        Case { family, prog, modules: BTreeMap::new(), opts: CmpOpts { trace: false, kind: false }, also_full_parens: false, note: String::new(), prelude: Vec::new(), impl_src: None, first_line: 1 }
+        Case { family, prog, modules: BTreeMap::new(), opts: CmpOpts { trace: false, kind: false }, also_full_parens: false, note: String::new(), prelude: Vec::new(), impl_src: None, first_line: 1, impl_modules: BTreeMap::new(), piecewise: false }
     }
 }
 
@@ -113,22 +119,46 @@ pub fn module_sources(case: &Case) -> BTreeMap<String, String> {
         };
         m.insert(k.clone(), text);
     }
+    for (k, v) in &case.impl_modules {
+        m.insert(k.clone(), v.clone());
+    }
     m
 }
 
-fn run_alone(runner: &mut Runner, prelude: &[String], src: &str, modules: &BTreeMap<String, String>, fuel: u64) -> Obs {
-    let mut snippets: Vec<String> = prelude.to_vec();
-    snippets.push(src.to_string());
-    let mut req = Request { op: "run".into(), snippets, modules: modules.clone(), fuel: Some(fuel), ..Default::default() };
+fn request_snippets(case: &Case, src: &str) -> Vec<String> {
+    let mut snippets: Vec<String> = case.prelude.to_vec();
+    if case.piecewise {
+        snippets.extend(case.prog.iter().map(|st| print_program(std::slice::from_ref(st), false)));
+    } else {
+        snippets.push(src.to_string());
+    }
+    snippets
+}
+
+fn run_alone(runner: &mut Runner, case: &Case, src: &str, modules: &BTreeMap<String, String>, fuel: u64) -> Obs {
+    let mut req = Request { op: "run".into(), snippets: request_snippets(case, src), modules: modules.clone(), fuel: Some(fuel), ..Default::default() };
     runner.call(&mut req)
 }
 
-/// the result of the program itself: the last snippet of the request; a panic in a snippet of the
-/// history before it is the case's result (nothing may panic)
-fn obs_result(o: &Obs) -> Option<SnippetResult> {
+/// the result of the program itself: the last snippet of the request (for a program fed piece by piece:
+/// the pieces' printed lines up to and including the first one that did not end normally, with that
+/// piece's outcome); a panic in any snippet is the case's result (nothing may panic)
+fn obs_result(case: &Case, o: &Obs) -> Option<SnippetResult> {
     o.resp().and_then(|r| {
         if let Some(p) = r.results.iter().find(|x| matches!(x.outcome, proto::Outcome::Panic { .. })) {
             return Some(p.clone());
+        }
+        if case.piecewise {
+            let mut out: Vec<String> = Vec::new();
+            let mut outcome = proto::Outcome::Ok;
+            for piece in r.results.iter().skip(case.prelude.len()) {
+                out.extend(piece.out.iter().cloned());
+                if !matches!(piece.outcome, proto::Outcome::Ok) {
+                    outcome = piece.outcome.clone();
+                    break;
+                }
+            }
+            return Some(SnippetResult { out, outcome });
         }
         r.results.last().cloned()
     })
@@ -163,10 +193,10 @@ fn judge(
     }
     let Some(mismatch) = mismatch else { return };
     // confirm twice in isolation
-    let a = run_alone(runner, &case.prelude, src, modules, hooks.fuel);
-    let b = run_alone(runner, &case.prelude, src, modules, hooks.fuel);
+    let a = run_alone(runner, case, src, modules, hooks.fuel);
+    let b = run_alone(runner, case, src, modules, hooks.fuel);
     stats.executions += 2;
-    let (ra, rb) = (obs_result(&a), obs_result(&b));
+    let (ra, rb) = (obs_result(case, &a), obs_result(case, &b));
     let same = match (&ra, &rb) {
         (Some(x), Some(y)) => x.out.iter().map(|l| normalise(l)).eq(y.out.iter().map(|l| normalise(l))) && std::mem::discriminant(&x.outcome) == std::mem::discriminant(&y.outcome),
         (None, None) => a.describe() == b.describe(),
@@ -198,8 +228,9 @@ fn judge(
     };
     let artefact = json!({
         "family": case.family,
-        "request": {"op": "run", "snippets": case.prelude.iter().cloned().chain(std::iter::once(src.to_string())).collect::<Vec<_>>(), "modules": modules, "fuel": hooks.fuel},
+        "request": {"op": "run", "snippets": request_snippets(case, src), "modules": modules, "fuel": hooks.fuel},
         "result_index": case.prelude.len(),
+        "piecewise": case.piecewise,
         "source": src,
         "modules": modules,
         "expected": {"out": model.out, "outcome": model.outcome},
@@ -253,7 +284,7 @@ fn judge_batch(runner: &mut Runner, hooks: &Hooks, batch: Vec<Case>, check_deter
                 Outcome::Ok => stats.model_ok += 1,
                 Outcome::Uncaught(_) => stats.model_uncaught += 1,
             }
-            let h = fnv64(&format!("{}\u{0}{:?}\u{0}{:?}", src, modules_text, case.prelude));
+            let h = fnv64(&format!("{}\u{0}{:?}\u{0}{:?}\u{0}{}", src, modules_text, case.prelude, case.piecewise));
             if stats.distinct.insert(h) && (hooks.nontrivial)(case, &model) {
                 stats.nontrivial.insert(h);
             }
@@ -266,7 +297,7 @@ fn judge_batch(runner: &mut Runner, hooks: &Hooks, batch: Vec<Case>, check_deter
         }
     }
     // 2. execute: programs without modules share one run_each request
-    let plain: Vec<usize> = (0..prepared.len()).filter(|&i| prepared[i].modules.is_empty() && batch[prepared[i].case_idx].prelude.is_empty()).collect();
+    let plain: Vec<usize> = (0..prepared.len()).filter(|&i| prepared[i].modules.is_empty() && batch[prepared[i].case_idx].prelude.is_empty() && !batch[prepared[i].case_idx].piecewise).collect();
     let mut results: Vec<Option<(Option<SnippetResult>, String)>> = (0..prepared.len()).map(|_| None).collect();
     if !plain.is_empty() {
         let mut req = Request {
@@ -288,16 +319,16 @@ fn judge_batch(runner: &mut Runner, hooks: &Hooks, batch: Vec<Case>, check_deter
     }
     for i in 0..prepared.len() {
         if results[i].is_none() {
-            let o = run_alone(runner, &batch[prepared[i].case_idx].prelude, &prepared[i].src, &prepared[i].modules, hooks.fuel);
-            results[i] = Some((obs_result(&o), o.describe()));
+            let o = run_alone(runner, &batch[prepared[i].case_idx], &prepared[i].src, &prepared[i].modules, hooks.fuel);
+            results[i] = Some((obs_result(&batch[prepared[i].case_idx], &o), o.describe()));
         }
     }
     // 3. compare
     for (i, p) in prepared.iter().enumerate() {
         let (first, desc) = results[i].take().unwrap();
         if check_determinism {
-            let again = run_alone(runner, &batch[p.case_idx].prelude, &p.src, &p.modules, hooks.fuel);
-            let same = match (&first, obs_result(&again)) {
+            let again = run_alone(runner, &batch[p.case_idx], &p.src, &p.modules, hooks.fuel);
+            let same = match (&first, obs_result(&batch[p.case_idx], &again)) {
                 (Some(x), Some(y)) => x.out.iter().map(|l| normalise(l)).eq(y.out.iter().map(|l| normalise(l))),
                 (None, None) => true,
                 _ => false,
